@@ -567,7 +567,7 @@ var liveBad = map[string]struct {
 	"fdivzero": {`10.0 / "v" > 1.0`, imodels.Fields{"v": 1.0}, imodels.Fields{"v": 0.0}},
 	"minint":   {`"v" / -1 > 0`, imodels.Fields{"v": int64(-5)}, imodels.Fields{"v": int64(-9223372036854775808)}},
 	"minmod":   {`"v" % -1 == 0`, imodels.Fields{"v": int64(-5)}, imodels.Fields{"v": int64(-9223372036854775808)}},
-	"durzero":  {`1m / "v" > 1`, imodels.Fields{"v": int64(1)}, imodels.Fields{"v": int64(0)}},
+	"durzero":  {`1m / "v" > 1s`, imodels.Fields{"v": int64(1)}, imodels.Fields{"v": int64(0)}},
 	"regex":    {`"v" =~ /a/`, imodels.Fields{"v": "a"}, imodels.Fields{"v": int64(1)}},
 	"none":     {`"v" > 0`, imodels.Fields{"v": int64(1)}, imodels.Fields{"v": int64(2)}},
 }
